@@ -209,6 +209,54 @@ func MapOrder[M ~map[K]V, K comparable, V any](site int, m M) []K {
 	return out
 }
 
+// MapIterator is what a `range` over a map is rewritten to use: the keys in the order the
+// simulator chose, each looked up when its turn comes (an entry deleted meanwhile is skipped,
+// a value changed meanwhile is seen, as the language allows).
+type MapIterator[M ~map[K]V, K comparable, V any] struct {
+	m    M
+	keys []K
+	i    int
+	nan  []V // values of keys that are not equal to themselves (NaN): they cannot be looked up
+	K    K
+	V    V
+}
+
+func MapIter[M ~map[K]V, K comparable, V any](site int, m M) *MapIterator[M, K, V] {
+	it := &MapIterator[M, K, V]{m: m, keys: MapOrder(site, m)}
+	for _, k := range it.keys {
+		if k != k {
+			for k2, v := range m {
+				if k2 != k2 {
+					it.nan = append(it.nan, v)
+				}
+			}
+			break
+		}
+	}
+	return it
+}
+
+func (it *MapIterator[M, K, V]) Next() bool {
+	for it.i < len(it.keys) {
+		k := it.keys[it.i]
+		it.i++
+		if k != k {
+			if len(it.nan) == 0 {
+				continue
+			}
+			it.K, it.V, it.nan = k, it.nan[0], it.nan[1:]
+			return true
+		}
+		v, ok := it.m[k]
+		if !ok {
+			continue
+		}
+		it.K, it.V = k, v
+		return true
+	}
+	return false
+}
+
 // sortKeys brings keys into a canonical total order. It reports false if no
 // run-independent order exists for the key type.
 func sortKeys[K comparable](keys []K) bool {
